@@ -169,6 +169,15 @@ def w_bonds(case, led):
             dofs = [i for i, x in enumerate(w) if x != "I"]
             f_ = float(rng.uniform(0.5, 2.0)) * (1 if rng.random() < 0.5 else -1)
             terms.append(Op(sym, dofs, f_, qn=[chg[x] for x in w if x != "I"]) if charged else Op(sym, dofs, f_))
+        # duplicates whose coefficients cancel only up to rounding (0.1 + 0.2 - 0.3): the word is not part of the operator and costs no bond index
+        if t % 4 == 3 and len(words) >= 3:
+            wcancel = words[int(rng.integers(len(words)))]
+            sym_c = " ".join(x for x in wcancel if x != "I")
+            dofs_c = [i for i, x in enumerate(wcancel) if x != "I"]
+            terms = [tm for tm, w in zip(terms, words) if w != wcancel]
+            for f_c in (0.1, 0.2, -0.3):
+                terms.append(Op(sym_c, dofs_c, f_c, qn=[chg[x] for x in wcancel if x != "I"]) if charged else Op(sym_c, dofs_c, f_c))
+            words = [w for w in words if w != wcancel]
         # a constant term E0 * 1 together with the `offset` argument: the table holds (E0 - offset) times the identity string - nothing when they cancel
         offset = None
         ref_words = set(words)
@@ -308,6 +317,13 @@ def check(run):
             for g in graphs(nU, nV):
                 for a in ("Hopcroft-Karp", "Hungarian"):
                     jobs.append((g, a))
+                    # neighbour lists are sets: the same graph with every list written in descending order
+                    if nV >= 2 and any(len(x) >= 2 for x in g):
+                        jobs.append(([list(reversed(x)) for x in g], a))
+    # vertex labels beyond the 16-bit range (a few U vertices, V labels up to 70 000: still decided by brute force over the subsets of U)
+    for g in ([[69999], [3, 65536], [65536, 2], [], [7, 69999, 65540], [65541]], [[65535, 65536], [65536], [0, 65535]], [[70000], [70000], [4]]):
+        for a in ("Hopcroft-Karp", "Hungarian"):
+            jobs.append((g, a))
     res = pmap(_job, jobs)
     for g, algo, r in res:
         nontrivial = any(g) and (any(len(a) == 0 for a in g) or min_cover_size(g, max((max(a, default=-1) for a in g), default=-1) + 1) < min(len(g), 1 + max(max(a, default=-1) for a in g)))
